@@ -134,6 +134,9 @@ func c11MemFS() (*harness.MemFS, []resExpect) {
 		{Path: "/d/a b.txt", Size: 3, ETag: "sp"},
 		{Path: "/d/100%", IsDir: true},
 		{Path: "/d/100%/é#?.txt", Size: 5, ModTime: mt, ETag: "meta"},
+		// modification times at and before the epoch are times like any other
+		{Path: "/d/epoch.txt", Size: 1, ModTime: time.Unix(0, 0).UTC(), ETag: "t0"},
+		{Path: "/d/before-epoch.txt", Size: 1, ModTime: time.Date(1969, 7, 20, 20, 17, 40, 0, time.UTC), ETag: "t-1"},
 	}
 	var res []resExpect
 	for _, f := range files {
